@@ -12,7 +12,7 @@ import time
 import traceback
 
 ROOT = os.path.dirname(os.path.dirname(os.path.abspath(__file__)))
-REPO = "/repo"
+REPO = os.environ.get("VF_REPO", "/repo")  # VF_REPO: a scratch git copy used by tools/matrix.py only
 EXIT_OK, EXIT_VIOLATION, EXIT_INCONCLUSIVE = 0, 1, 2
 
 
@@ -75,7 +75,7 @@ class Report:
 
     def violation(self, what, replay_obj):
         """record a violation that HAS been reproduced on the real code."""
-        d = os.path.join(ROOT, "replays", self.pid)
+        d = os.path.join(os.environ.get("VF_OUT_DIR", ROOT), "replays", self.pid)
         os.makedirs(d, exist_ok=True)
         blob = json.dumps(replay_obj, sort_keys=True, default=repr)
         name = hashlib.sha1(blob.encode()).hexdigest()[:10] + ".json"
@@ -141,8 +141,9 @@ class Report:
             "wall_s": round(wall, 2),
             "violations": len(self.violations),
         }
-        os.makedirs(os.path.join(ROOT, "evidence"), exist_ok=True)
-        with open(os.path.join(ROOT, "evidence", f"{self.pid}.json"), "w") as f:
+        evdir = os.path.join(os.environ.get("VF_OUT_DIR", ROOT), "evidence")  # VF_OUT_DIR: tools/matrix.py only
+        os.makedirs(evdir, exist_ok=True)
+        with open(os.path.join(evdir, f"{self.pid}.json"), "w") as f:
             json.dump(ev, f, indent=1, default=repr)
         for line in self.known_lines:
             print(line)
